@@ -20,6 +20,7 @@
 #include <fstream>
 #include <poll.h>
 #include <sys/stat.h>
+#include <sys/mman.h>
 
 using namespace vc;
 
@@ -299,11 +300,11 @@ static void reset_workdir(std::string const &wd)
 }
 
 // Engine simulator of this check.  vproxy copies NAMD's atom registration, where check_atom_id() reports the
-// error and returns COLVARS_INPUT_ERROR (a positive constant) which init_atom() then tests with "< 0": a
-// non-existent atom number ends up registered as atom id 4.  That is the engine's protocol and is kept as the
-// default ("namd" convention; forces are summed over slots so a duplicate slot cannot hide a force).  Under the
-// "error-return" convention init_atom() does what every engine interface intends: report the error, create no
-// slot, return COLVARS_INPUT_ERROR.
+// error and returns COLVARS_INPUT_ERROR (a positive constant, 4) which init_atom() then tests with "< 0": a
+// non-existent atom number ends up registered as a new slot for atom id 4 (one more slot per invalid atom).
+// That is a defect of the engine glue, not of the library, so this check uses what every engine interface
+// (NAMD, LAMMPS, the stub) evidently intends: report the error, create no slot, return COLVARS_INPUT_ERROR.
+// (error_return = false restores vproxy's behaviour; forces are summed over slots either way.)
 class c10proxy : public vproxy {
 public:
   bool error_return = false;
@@ -334,7 +335,7 @@ public:
     return rc;
   }
 };
-static bool g_error_return = false;
+static bool g_error_return = true;
 
 static c10proxy *make_proxy()
 {
@@ -1011,6 +1012,13 @@ static std::string record_step(c10proxy *px, std::vector<std::string> const &cvs
     if (!b) { os << n << "=MISSING;"; continue; }
     os << n << ".E=" << b->get_energy() << ";";
   }
+  // every object of the module, whoever defined it (a rejected configuration must leave none behind and
+  // must not switch a surviving one off)
+  os << "ALL:";
+  for (auto *c : px->colvars->colvars)
+    os << c->name << "=" << cvm::to_str(c->value(), 0, 17) << (c->is_enabled(colvardeps::f_cv_active) ? "" : "(inactive)") << ";";
+  for (auto *b : px->colvars->biases)
+    os << b->name << ".E=" << b->get_energy() << (b->is_enabled(colvardeps::f_cvb_active) ? "" : "(inactive)") << ";";
   os << "E=" << px->energy << ";F=";
   for (int a = 0; a < px->natoms; a++) os << px->fapp[a].x << "," << px->fapp[a].y << "," << px->fapp[a].z << " ";
   return os.str();
@@ -1163,6 +1171,18 @@ static int seq_child(SeqA const &A, std::string const &prelude, std::string cons
   return 0;
 }
 
+// work queue shared by the forked workers (a fixed i % n split leaves one worker with the slow cases)
+static long *g_next = NULL;
+static void queue_reset()
+{
+  if (!g_next) {
+    g_next = (long *) mmap(NULL, 4096, PROT_READ | PROT_WRITE, MAP_SHARED | MAP_ANONYMOUS, -1, 0);
+    if (g_next == MAP_FAILED) harness_error("mmap failed");
+  }
+  *g_next = 0;
+}
+static long queue_take() { return __atomic_fetch_add(g_next, 1, __ATOMIC_SEQ_CST); }
+
 static const char *SEP = " ## ";
 static std::string raw_sig(std::string const &label, std::string const &kind, std::string const &func)
 {
@@ -1213,9 +1233,20 @@ static void group_findings(Result &total)
   for (auto const &g : groups) {
     if (g.second.labels.empty()) { nc[g.first] = g.second.count; continue; }
     std::string best;
+    std::string lfunc = lower(g.first.substr(g.first.find('@') + 1));
+    for (char &ch : lfunc) if (ch == '_') ch = ' ';
+    std::string lf2;
+    for (char ch : lfunc) if (ch != ' ') lf2 += ch;
+    auto score = [&](std::string const &lab) {
+      // smaller is better: object type named by the crashing function first, then the simplest value class
+      std::string ctx = lower(lab.substr(0, lab.find(':')));
+      bool named = ctx.size() > 2 && lf2.find(ctx) != std::string::npos;
+      bool generic = ctx == "colvar" || ctx == "module" || ctx == "atomgroup";
+      return (named ? 0 : generic ? 1000 : 2000) + vclass_rank(lab);
+    };
     for (auto const &l : g.second.labels) {
       if (best.empty()) { best = l.first; continue; }
-      int r1 = vclass_rank(l.first), r0 = vclass_rank(best);
+      int r1 = score(l.first), r0 = score(best);
       if (r1 < r0 || (r1 == r0 && l.first < best)) best = l.first;
     }
     std::string kind = g.first.substr(0, g.first.find('@'));
@@ -1262,7 +1293,7 @@ int main(int argc, char **argv)
   bool const thorough = args.thorough();
   std::string repo = args.kv.count("repo") ? args.kv["repo"] : "/repo";
   std::string scratch = args.kv.count("scratch") ? args.kv["scratch"] : ".";
-  double const T_CASE = 2.0, T_RETRY = 20.0;  // CPU seconds of one child
+  double const T_CASE = 2.0, T_RETRY = 40.0;  // CPU seconds of one child
   long const RSS_CAP_MB = 3072;
   double t_start = now();
   setenv("OMP_NUM_THREADS", "2", 1);
@@ -1403,25 +1434,57 @@ int main(int argc, char **argv)
   // quick tier: a case is run once per (object-type chain, keys present in the block, keyword, value class);
   // the thorough tier runs every case of every base
   {
+    // number of object types whose registry holds a keyword (shared component keywords: name, componentCoeff, ...)
+    std::map<std::string, std::set<std::string>> kw_types;
+    for (auto const &b : BASES)
+      for (auto const &kv : b.kw)
+        for (auto const &k : kv.second) kw_types[k].insert(ctx_label(b, kv.first));
+    std::map<std::string, std::set<std::string>> shared_taken;
     std::set<std::string> seen;
     std::vector<Case> keep;
+    static const std::set<std::string> cross_classes = {"0", "-1", "1000000", "nan"};
     for (auto const &c : cases) {
       Mut const &m = c.muts[0];
       Node &t = BASES[c.base].tree;
-      std::string sig;
+      std::string const ctxl = ctx_label(BASES[c.base], m.ctx);
+      bool take = false;
       if (thorough) {
         // once per (chain of object types, keys present in the block, keyword, value class)
+        std::string sig;
         Node *n = &t;
         for (int i : m.path) { n = &n->kids[i]; sig += lower(n->key) + "/"; }
         std::set<std::string> pk;
         for (auto const &k : n->kids) pk.insert(lower(k.key) + (k.block ? "{}" : ""));
         for (auto const &k : pk) sig += k + ",";
+        // module and colvar keywords also once per set of bias types they act on
+        if (ctxl == "module" || ctxl == "colvar")
+          for (auto const &k : t.kids) if (k.block && lower(k.key) != "colvar") sig += "+" + lower(k.key);
+        take = seen.insert(sig + "|" + m.kw + "=" + m.vclass).second;
       } else {
-        // once per (object type, keyword, value class), in the first configuration that has the object type
-        sig = ctx_label(BASES[c.base], m.ctx);
+        // quick: once per (object type, keyword, value class), in the first configuration that has it ...
+        std::string kv = m.kw + "=" + m.vclass;
+        if (ctxl == "module" || ctxl == "colvar") {
+          take = seen.insert(ctxl + "|" + kv).second;
+          // ... module and colvar keywords additionally once per set of bias types, for four value classes
+          if (cross_classes.count(m.vclass) && !BLOCK_KEYS.count(m.kw)) {
+            std::string bs;
+            std::set<std::string> bset;
+            for (auto const &k : t.kids) if (k.block && lower(k.key) != "colvar") bset.insert(lower(k.key));
+            for (auto const &k : bset) bs += k + "+";
+            if (seen.insert(bs + "|" + ctxl + "|" + kv).second) take = true;
+          }
+        } else if (kw_types[m.kw].size() > 10 && ctxl != "atomGroup" && ctxl != "fittingGroup") {
+          // ... a keyword shared by more than 10 object types in the first 3 of them
+          auto &tk = shared_taken[m.kw];
+          if (tk.count(ctxl) || tk.size() < 3) {
+            tk.insert(ctxl);
+            take = seen.insert(ctxl + "|" + kv).second;
+          }
+        } else {
+          take = seen.insert(ctxl + "|" + kv).second;
+        }
       }
-      sig += "|" + m.kw + "=" + m.vclass;
-      if (seen.insert(sig).second) keep.push_back(c);
+      if (take) keep.push_back(c);
     }
     total.count("cases_deduplicated_away", (long) (cases.size() - keep.size()));
     cases.swap(keep);
@@ -1440,17 +1503,18 @@ int main(int argc, char **argv)
 
   // executes one list of cases sharded; discoveries of new keywords come back as notes "DISC\t…"
   auto run_cases = [&](std::vector<Case> const &cs, std::string const &phase, Result &res) {
+    queue_reset();
     return run_sharded(args.jobs, [&](int shard, int nsh, Result &r) {
       std::string wd = scratch + "/w" + std::to_string(shard);
       reset_workdir(wd);
       if (chdir(wd.c_str())) harness_error("chdir " + wd);
       std::set<std::string> disc_seen;
       std::map<std::string, int> confirmed;
-      for (size_t i = shard; i < cs.size(); i += nsh) {
+      for (size_t i; (i = (size_t) queue_take()) < cs.size();) {
         Case const &c = cs[i];
         std::string conf = case_config(c);
         reset_workdir(wd);
-        if (shard == 0 && (i / nsh) % 500 == 0)
+        if (i % 2000 == 0)
           fprintf(stderr, "  %s: %zu/%zu (%.0fs)\n", phase.c_str(), i, cs.size(), now() - t_start);
         Outcome o = run_child([&]() { return child_body(conf, true); }, T_CASE, RSS_CAP_MB);
         r.count("evaluations");
@@ -1474,11 +1538,12 @@ int main(int argc, char **argv)
           r.seen("outcomes", std::string(rejected ? "rejected:" : "accepted:") + (rep.unrec ? "unread" : "read") +
                                  (rep.src ? ":steperr" : ""));
           if ((rep.rc != 0 && rep.nerr_parse == 0) || ((rep.src | rep.wrc | rep.orc | rep.erc) && rep.nerr == 0)) {
-            Outcome oo = o;
-            oo.kind = "error-without-message";
-            r.violation(raw_sig(lab, "error-without-message", ""), detail_json(c, conf, oo, NULL));
+            // the statement asks for an error message; cvm::log() followed by set_error_bits() (e.g. unknown
+            // corrFuncType) does print one, only not through the error channel: counted, not a violation
+            r.count("error_bits_without_error_channel_message");
+            r.seen("error_bits_without_error_channel_message", mut_label(BASES[c.base], c.muts.back()));
           }
-          if (r.samples.size() < 2 && (i / nsh) % 97 == 3)
+          if (r.samples.size() < 2 && i % 1553 == 3)
             r.sample("{\"base\":\"" + jesc(BASES[c.base].name) + "\",\"mutation\":\"" + jesc(lab) + "\",\"end\":\"" +
                      (rejected ? "rejected: " + jesc(rep.first_err) : std::string("accepted")) + "\"}");
           // keywords that became readable only under this mutation
@@ -1715,11 +1780,12 @@ int main(int argc, char **argv)
     }
     size_t nA = As.size();
     Result r3;
+    queue_reset();
     bool ok = run_sharded(args.jobs, [&](int shard, int nsh, Result &r) {
       std::string wd = scratch + "/w" + std::to_string(shard);
       reset_workdir(wd);
       if (chdir(wd.c_str())) harness_error("chdir " + wd);
-      for (size_t q = shard; q < order.size() * nA; q += nsh) {
+      for (size_t q; (q = (size_t) queue_take()) < order.size() * nA;) {
         size_t i = order[q / nA];
         SeqA const &A = As[q % nA];
         Case const &c = bs[i];
@@ -1765,7 +1831,7 @@ int main(int argc, char **argv)
         r.seen("nontrivial", "seq|" + A.name + "|" + case_id(c));
         r.seen("states", Ttxt.size() ? Ttxt : A.name + "|same");
         if (verdict == "same") {
-          if (r.samples.size() < 3 && (q / nsh) % 211 == 5)
+          if (r.samples.size() < 3 && q % 337 == 5)
             r.sample("{\"sequence\":\"A=" + A.name + "; step; B=" + jesc(lab) + " of " + jesc(BASES[c.base].name) +
                      " (rejected: " + errB.substr(0, 120) + "); step; C; step\",\"end\":\"identical to the run without B\"}");
           continue;
